@@ -118,6 +118,35 @@ def run(ctx):
                             fld = member_of_param(a, prm)
                             if fld:
                                 swapped.add(fld)
+    # ... on every path: the only excuse for leaving early is that both operands are the same object
+    swap_calls = [c for c in sw.calls() if ((c.get("callee") or {}).get("nm") or "").endswith("swap") or (callee_name(c) or "").endswith("swap")]
+    if sw.cfg_raw and swap_calls:
+        from cmpverif import paths as _paths
+        npaths = 0
+        early = None
+        for p in _paths.enumerate_paths(sw):
+            if p.end != "exit":
+                continue
+            npaths += 1
+            done = {x.get("id") for _, x in p.elems()}
+            if all(c.get("id") in done for c in swap_calls):
+                continue
+
+            def addr_of(x, decl):
+                x = strip_all_casts(x)
+                if x.get("k") == "un" and x.get("op") == "&":
+                    return strip_all_casts(x["e"]).get("decl") == decl
+                if x.get("k") == "call" and (callee_name(x) or "") in ("std::addressof", "std::__addressof") and x.get("args"):
+                    return strip_all_casts(x["args"][0]).get("decl") == decl
+                return False
+            same = any(a[0] == "cmp" and a[2] == "==" and ((addr_of(a[4], sw.params[0]["decl"]) and addr_of(a[5], sw.params[1]["decl"])) or
+                                                           (addr_of(a[5], sw.params[0]["decl"]) and addr_of(a[4], sw.params[1]["decl"]))) for a in p.atoms)
+            if not same:
+                early = p.atoms[-1] if p.atoms else ("?", "unconditionally", "", "")
+        res.check(early is None, "C14-R1", "swap(Packet&,Packet&):every-path", sw.loc, "the members are exchanged on every path (%d), or the operands are the same object" % npaths,
+                  "swap(Packet&, Packet&) returns without exchanging the members when `%s %s %s`: two different packets can meet that condition, and move / "
+                  "assignment then leave the target as it was" % ((early[1][:60], early[2], early[3][:60]) if early and early[0] == "cmp" else
+                                                                  ((early[1][:60], "is", early[2]) if early else ("", "", ""))))
     missing = [f for f in fields if f not in swapped]
     res.check(not missing, "C14-R1", "swap(Packet&,Packet&):members", sw.loc, "all %d members swapped pairwise" % len(fields),
               "swap(Packet&, Packet&) does not swap %s: moves and assignments lose that member" % [m.split("::")[-1] for m in missing])
@@ -291,6 +320,26 @@ def run(ctx):
                             o = strip_all_casts(o["args"][0])
                         return o
                     ok = [unwrap(o).get("decl") for o in ops] == [p["decl"] for p in f.params]
+        if not ok and len(rets) == 1:
+            # written out: the sibling operator== returns `A == B` (one comparison) and this one returns `A != B` over the same operand expressions
+            eqs = [g for g in fb.all_functions() if g.name == f.name.replace("operator!=", "operator==") and g.body and
+                   [q["t"]["s"] for q in g.params] == [q["t"]["s"] for q in f.params]]
+            if len(eqs) == 1:
+                grets = [n for n in eqs[0].nodes() if n.get("k") == "return"]
+                if len(grets) == 1:
+                    def sides(fn, e, op):
+                        e = strip(facts.expand(fn, e))
+                        if e.get("k") == "bin" and e.get("op") == op:
+                            l, r = e["l"], e["r"]
+                        elif e.get("k") == "call" and e.get("op") == op and len(([e["obj"]] if "obj" in e else []) + e.get("args", [])) == 2:
+                            l, r = ([e["obj"]] if "obj" in e else []) + e.get("args", [])
+                        else:
+                            return None
+                        # operands named by position so the two functions' parameter names do not matter
+                        m0 = {q["decl"]: {"k": "ref", "dk": "param", "decl": "P%d" % i, "id": -1 - i} for i, q in enumerate(fn.params)}
+                        return {canon(strip_all_casts(facts.substitute(l, m0))), canon(strip_all_casts(facts.substitute(r, m0)))}
+                    a, b = sides(eqs[0], grets[0]["e"], "=="), sides(f, rets[0]["e"], "!=")
+                    ok = a is not None and a == b
         res.check(ok, "C14-R5", "%s(%s)" % (f.name.split("::")[-1], f.params[0]["t"]["s"].replace("const ", "").replace(" &", "")), f.loc,
                   "`!operator==(lhs, rhs)`", "operator!= is not the negation of operator== on the same operands")
 
